@@ -1,12 +1,24 @@
 import Spine.Feature
+import Spine.FeatureMore
 open Spine.Feat
 /-! Line protocol for the feature-creation model (C07, GetOrAddFeature / NextFeatureId on one entity).
     `cfg recheck 0|1` selects the member (0 = code as written, 1 = creation looks up again under the lock).
     `get op t r` is a call nothing overlaps; `lookup op t r` / `create op` are the two events of an overlapping call.
-    Answers: the feature number the call returned (`get`, `create`, `lookup` on a hit) or `miss`. -/
+    Answers: the feature number the call returned (`get`, `create`, `lookup` on a hit) or `miss`.
+    `drawn` prints the observer `Spine.Feat.drawnOf` accumulated over the events so far (the numbers drawn from the
+    generator, oldest first), `answers` the observer `Spine.Feat.answerOf` (op:type-asked:role-asked:number handed
+    back, oldest first) — the lists the theorems `c07_numbers_never_reused`, `c07_same_feature_asked` speak about. -/
 structure D where
   recheck : Bool := false
   s : St := {}
+  drawn : List Nat := []        -- newest first
+  ans : List Answer := []       -- newest first
+
+/-- one event: the observers see the event and the state it meets, then the model steps -/
+def D.ev (d : D) (s0 : St) (e : Ev) : D :=
+  { d with s := step d.recheck s0 e,
+           drawn := (drawnOf d.recheck s0 e).toList ++ d.drawn,
+           ans := (answerOf d.recheck s0 e).toList ++ d.ans }
 
 def resOf (s : St) (op : Nat) : String :=
   match s.res.find? (·.1 = op) with
@@ -16,25 +28,28 @@ def resOf (s : St) (op : Nat) : String :=
 def answer (d : D) (ws : List String) : D × String :=
   match ws with
   | ["cfg", "recheck", b] => ({ d with recheck := b == "1" }, "ok")
-  | ["reset"] => ({ d with s := {} }, "ok")
+  | ["reset"] => ({ d with s := {}, drawn := [], ans := [] }, "ok")
   | ["get", op, t, r] => match op.toNat?, t.toNat?, r.toNat? with
     | some op, some t, some r =>
-      let s' := step d.recheck { d.s with res := d.s.res.filter (·.1 ≠ op) } (.getOrAdd op t r)
-      ({ d with s := s' }, resOf s' op)
+      let d' := d.ev { d.s with res := d.s.res.filter (·.1 ≠ op) } (.getOrAdd op t r)
+      (d', resOf d'.s op)
     | _, _, _ => (d, "bad-op")
   | ["lookup", op, t, r] => match op.toNat?, t.toNat?, r.toNat? with
     | some op, some t, some r =>
-      let s' := step d.recheck { d.s with res := d.s.res.filter (·.1 ≠ op) } (.lookup op t r)
-      ({ d with s := s' }, if s'.missed.any (·.1 = op) then "miss" else resOf s' op)
+      let d' := d.ev { d.s with res := d.s.res.filter (·.1 ≠ op) } (.lookup op t r)
+      (d', if d'.s.missed.any (·.1 = op) then "miss" else resOf d'.s op)
     | _, _, _ => (d, "bad-op")
   | ["create", op] => match op.toNat? with
     | some op =>
       if d.s.missed.any (·.1 = op) then
-        let s' := step d.recheck d.s (.create op)
-        ({ d with s := s' }, resOf s' op)
+        let d' := d.ev d.s (.create op)
+        (d', resOf d'.s op)
       else (d, "not-missed")
     | none => (d, "bad-op")
-  | ["next"] => ({ d with s := step d.recheck d.s .nextId }, toString d.s.nextId)
+  | ["next"] => (d.ev d.s .nextId, toString d.s.nextId)
+  | ["drawn"] => (d, if d.drawn.isEmpty then "." else ",".intercalate (d.drawn.reverse.map toString))
+  | ["answers"] => (d, if d.ans.isEmpty then "." else
+      ",".intercalate (d.ans.reverse.map fun a => s!"{a.op}:{a.typ}:{a.role}:{a.f.id}"))
   | ["feats"] => (d, if d.s.feats.isEmpty then "." else ",".intercalate (d.s.feats.map fun f => s!"{f.id}:{f.typ}:{f.role}"))
   | _ => (d, "bad-op")
 
